@@ -724,7 +724,8 @@ pub fn containment(cfg: &Cfg, html: &Html, v: &mut Vec<(String, String)>) {
                         ));
                     }
                     if an == "class" {
-                        for tok in a.value.split_whitespace() {
+                        // HTML splits class lists on ASCII whitespace: space, tab, LF, FF, CR
+                        for tok in a.value.split([' ', '\t', '\n', '\x0c', '\r']).filter(|t| !t.is_empty()) {
                             if !cfg.class_ok(name, tok) {
                                 v.push((format!("class/{name}/{tok}"), format!("class {tok} on <{name}>")));
                             }
@@ -1097,7 +1098,7 @@ pub const MATRIX_ELEMENTS: [&str; 72] = [
     "area",
 ];
 
-pub const MATRIX_ATTRS: [&str; 26] = [
+pub const MATRIX_ATTRS: [&str; 31] = [
     "data-mx-bg-color=\"#00ff00\"",
     "data-mx-color=\"#ff0000\"",
     "data-mx-spoiler=\"r\"",
@@ -1124,6 +1125,12 @@ pub const MATRIX_ATTRS: [&str; 26] = [
     "action=\"https://e.x/\"",
     "formaction=\"javascript:alert(1)\"",
     "xml:lang=\"en\"",
+    // class lists with each of HTML's ASCII whitespace separators (space, tab, LF, FF, CR)
+    "class=\"language-rust evil\"",
+    "class=\"evil\tlanguage-rust\"",
+    "class=\"language-rust\nevil\"",
+    "class=\"language-rust\x0cevil\"",
+    "class=\"evil\rlanguage-rust\"",
 ];
 
 /// wrap an element (with its attribute text) in the context the HTML parser needs to keep it
